@@ -14,7 +14,7 @@
 (* DOM rebuilt from the independent reader's events), which clauses fail,  *)
 (* and whether the as-coded renderer model explains a failure.             *)
 (***************************************************************************)
-EXTENDS RenderProps, Schema, Json, IOUtils
+EXTENDS Deser, Json, IOUtils
 
 Rec == ndJsonDeserialize(IOEnv.TRACE)
 VARIABLE l
@@ -105,10 +105,26 @@ Judge(e) ==
                                     modeltags |-> C04Tags(ModelStructs(e.tree, e.opts)),
                                     textfield |-> RootHasTextField(e.tree)]))
 
+\* the contract model's prediction for every document, compared with what rustc + the real deserializer did
+Predicted(e, d) == DeserDoc(ModelStructs(e.tree, e.opts), RootOccs(e)[d], e.preset)
+Disagrees(e, r) ==
+  LET p == Predicted(e, r.doc)
+  IN \/ p.ok # r.a
+     \/ (e.preset = "quick_xml" /\ p.okdeny # r.b)
+     \/ (p.ok /\ r.a /\ r.c /\ (p.missA # r.missing_attr \/ p.missT # r.missing_text))
+Compare(e) ==
+  IF e.compiled /\ InDomain(e) /\ C04Tags(ModelStructs(e.tree, e.opts)) = {}
+  THEN LET bad == {i \in 1..Len(e.runs) : Disagrees(e, e.runs[i])}
+       IN PrintT("INFO " \o ToJson([line |-> l, id |-> e.id, tags |-> {}, indomain |-> TRUE, compared |-> Len(e.runs),
+                                     disagreements |-> Cardinality(bad),
+                                     first |-> IF bad = {} THEN [none |-> TRUE]
+                                               ELSE LET i == CHOOSE x \in bad : TRUE IN [doc |-> e.runs[i].doc, predicted |-> Predicted(e, e.runs[i].doc)]]))
+  ELSE TRUE
+
 \* every domain member is also counted, so that the evidence can say how many programs were inside the domain
 Count(e) == IF InDomain(e) THEN PrintT("INFO " \o ToJson([line |-> l, id |-> e.id, tags |-> {}, indomain |-> TRUE, count |-> TRUE])) ELSE TRUE
 
-Next == l <= Len(Rec) /\ Rec[l].ev = "Program" /\ Judge(Rec[l]) /\ Count(Rec[l]) /\ l' = l + 1
+Next == l <= Len(Rec) /\ Rec[l].ev = "Program" /\ Judge(Rec[l]) /\ Count(Rec[l]) /\ Compare(Rec[l]) /\ l' = l + 1
 Spec == Init /\ [][Next]_l
 
 Accepted ==
